@@ -582,20 +582,34 @@ void splinetable<Alloc>::write_fits(const std::string& filePath) const{
 		throw std::runtime_error("CFITSIO failed to finish writing "+filePath+": Error "+std::to_string(error));
 	}
 	//CFITSIO does not report all failures to flush or position the file, so
-	//make sure that all of the data arrived. (A file name ending in .gz makes
-	//CFITSIO compress the file while closing it; the size of the result
-	//cannot be predicted.)
-	if (filePath.size()<3 || filePath.compare(filePath.size()-3,3,".gz")!=0)
+	//make sure that all of the data arrived. It takes the name as an output
+	//specification ("out.fits", "file://out.fits", "out.fits.gz", "-" for
+	//the standard output, ...): look at the file which it actually wrote.
+	std::string kind = "file://", writtenPath = filePath;
+	if (writtenPath.compare(0,7,"file://")==0)
+		writtenPath.erase(0,7);
+	else if (writtenPath.find("://")!=std::string::npos)
+		kind = "other"; //memory, shared memory, ...
+	if (writtenPath=="-" || writtenPath=="stdout" || writtenPath=="STDOUT")
+		kind = "stdout://";
+	else if (writtenPath.find_first_of("[(")!=std::string::npos)
+		kind = "other"; //compression or template specification
+	else if (kind=="file://" && writtenPath.size()>=3
+	         && writtenPath.compare(writtenPath.size()-3,3,".gz")==0)
+		kind = "compressoutfile://";
+	if (kind=="file://")
 	{
-		std::ifstream written(filePath.c_str(), std::ios::binary|std::ios::ate);
+		std::ifstream written(writtenPath.c_str(), std::ios::binary|std::ios::ate);
 		if (!written || (LONGLONG)written.tellg() != expected_size){
 			written.close();
-			remove(filePath.c_str());
+			remove(writtenPath.c_str());
 			throw std::runtime_error("Writing "+filePath+" failed: the file is incomplete");
 		}
 	}
-	else
+	else if (kind=="compressoutfile://")
 	{
+		//(A file name ending in .gz makes CFITSIO compress the file while
+		//closing it; the size of the result cannot be predicted.)
 		//CFITSIO does not look at the outcome of writing the compressed
 		//stream either. Have it expanded again: that fails unless the stream
 		//is complete (its checksum and length come last), and the size of
@@ -603,7 +617,7 @@ void splinetable<Alloc>::write_fits(const std::string& filePath) const{
 		fitsfile* check = nullptr;
 		int status = 0, n_hdus = 0, hdu_type = 0;
 		LONGLONG dataend = -1;
-		fits_open_diskfile(&check, filePath.c_str(), READONLY, &status);
+		fits_open_diskfile(&check, writtenPath.c_str(), READONLY, &status);
 		fits_get_num_hdus(check, &n_hdus, &status);
 		fits_movabs_hdu(check, n_hdus, &hdu_type, &status);
 		fits_get_hduaddrll(check, &headstart, &datastart, &dataend, &status);
@@ -612,10 +626,12 @@ void splinetable<Alloc>::write_fits(const std::string& filePath) const{
 			fits_close_file(check, &close_status);
 		}
 		if (status != 0 || dataend != expected_size){
-			remove(filePath.c_str());
+			remove(writtenPath.c_str());
 			throw std::runtime_error("Writing "+filePath+" failed: the file is incomplete");
 		}
 	}
+	//(the other kinds of output - standard output, memory, tile-compressed
+	//images - leave nothing behind whose size is known)
 }
 	
 template<typename Alloc>
